@@ -21,6 +21,7 @@ import (
 	"strings"
 	"testing"
 
+	"github.com/New-JAMneration/JAM-Protocol/PVM"
 	"github.com/New-JAMneration/JAM-Protocol/internal/blockchain"
 	"github.com/New-JAMneration/JAM-Protocol/internal/types"
 	"github.com/New-JAMneration/JAM-Protocol/internal/utilities/hash"
@@ -96,6 +97,27 @@ func v22SenderCode(tag byte, ts []v22Transfer, spin uint64, yields bool) []byte 
 	return v22Wrap(a, data, 0)
 }
 
+// v22CreatorCode: one `new` host call (code hash taken from the data section), then halt.
+func v22CreatorCode(tag byte) []byte {
+	a := &refpvm.Asm{}
+	a.Label()
+	a.Jump(1)
+	a.Label()
+	data := make([]byte, 160)
+	for i := 0; i < 32; i++ {
+		data[i] = tag + byte(i)
+	}
+	a.LoadImm64(7, v22Data)
+	a.LoadImm64(8, 10)
+	a.LoadImm64(9, 100)
+	a.LoadImm64(10, 100)
+	a.LoadImm64(11, 0)
+	a.LoadImm64(12, 0)
+	a.Ecalli(18, 1) // new
+	v22Halt(a)
+	return v22Wrap(a, data, 0)
+}
+
 // v22ReceiverCode: fetch all accumulation inputs, store them under key "o".
 func v22ReceiverCode() []byte {
 	a := &refpvm.Asm{}
@@ -108,7 +130,7 @@ func v22ReceiverCode() []byte {
 	a.LoadImm64(8, 0)
 	a.LoadImm64(9, 3*4096)
 	a.LoadImm64(10, 14)
-	a.Ecalli(1, 1)     // fetch: ω7 = length
+	a.Ecalli(1, 1)       // fetch: ω7 = length
 	a.TwoReg(100, 10, 7) // move_reg ω10 = ω7
 	a.LoadImm64(7, v22Data+130)
 	a.LoadImm64(8, 1)
@@ -144,6 +166,7 @@ type v22Scenario struct {
 	idMode    int
 	spin      uint64
 	hybrid    bool
+	collide   bool
 }
 
 func v22Gen(r vh.R) v22Scenario {
@@ -181,6 +204,10 @@ func v22Gen(r vh.R) v22Scenario {
 		sc.receivers = append(sc.receivers, id)
 		sc.delta[id] = v22Account(v22ReceiverCode(), 1<<40)
 	}
+	sc.tau = types.TimeSlot(100 + r.IntN(1000))
+	for i := range sc.eta {
+		copy(sc.eta[i][:], r.Bytes(32))
+	}
 	hybrid := r.Bool()
 	perRecv := map[types.ServiceID]int{}
 	var plan []string
@@ -212,6 +239,33 @@ func v22Gen(r vh.R) v22Scenario {
 		w.Results = []types.WorkResult{{ServiceID: id, AccumulateGas: types.Gas(5000 + 2*spin + uint64(r.IntN(3))*1000), Result: types.WorkExecResult{Type: types.WorkExecResultOk, Data: r.Bytes(4)}}}
 		sc.reports = append(sc.reports, w)
 	}
+	if r.IntN(6) == 0 {
+		// two services of this batch that both create a service and are handed the SAME new identifier (the identifier is derived
+		// from the creator's id, the entropy and the slot: a birthday search over creator ids finds such a pair in about 2^16 tries).
+		// Which of the two accounts ends up under that identifier must not depend on scheduling or map iteration.
+		seen := map[types.ServiceID]types.ServiceID{}
+		base := types.ServiceID(70000 + r.IntN(1<<20))
+		for k := 0; k < 400000; k++ {
+			cid := base + types.ServiceID(k)
+			if used[cid] {
+				continue
+			}
+			nid := PVM.I(types.PartialStateSet{ServiceAccounts: types.ServiceAccountState{}}, cid, sc.tau+1, sc.eta[0], nil).ImportServiceID
+			if other, ok := seen[nid]; ok {
+				for ci, c := range []types.ServiceID{other, cid} {
+					sc.delta[c] = v22Account(v22CreatorCode(byte(0x40+ci)), 1<<40)
+					var w types.WorkReport
+					copy(w.PackageSpec.Hash[:], r.Bytes(32))
+					w.Results = []types.WorkResult{{ServiceID: c, AccumulateGas: types.Gas(3000), Result: types.WorkExecResult{Type: types.WorkExecResultOk}}}
+					sc.reports = append(sc.reports, w)
+				}
+				sc.collide = true
+				plan = append(plan, fmt.Sprintf("creators %d and %d both derive new id %d", other, cid, nid))
+				break
+			}
+			seen[nid] = cid
+		}
+	}
 	for _, n := range perRecv {
 		if n > sc.maxToOne {
 			sc.maxToOne = n
@@ -223,10 +277,6 @@ func v22Gen(r vh.R) v22Scenario {
 	sc.chi = types.Privileges{Bless: priv, Designate: priv, CreateAcct: priv, Assign: make(types.ServiceIDList, types.CoresCount), AlwaysAccum: types.AlwaysAccumulateMap{}}
 	for c := range sc.chi.Assign {
 		sc.chi.Assign[c] = priv
-	}
-	sc.tau = types.TimeSlot(100 + r.IntN(1000))
-	for i := range sc.eta {
-		copy(sc.eta[i][:], r.Bytes(32))
 	}
 	sc.desc = fmt.Sprintf("receivers %v, senders %s, countdown %d", sc.receivers, strings.Join(plan, " "), spin)
 	sc.idMode, sc.spin, sc.hybrid = idMode, spin, hybrid
@@ -471,6 +521,9 @@ func TestVerifC22(t *testing.T) {
 		}
 		if sc.hybrid {
 			h.Inc("rounds_with_a_service_accumulated_in_two_batches")
+		}
+		if sc.collide {
+			h.Inc("rounds_with_two_creators_deriving_the_same_new_service_id")
 		}
 		if sc.maxToOne >= 13 {
 			h.Inc("rounds_with_more_than_a_dozen_transfers_to_one_receiver")
